@@ -671,7 +671,8 @@ fn gen_record(caps: &Caps, gen: &mut Gen, o: &[u64; 4]) -> (&'static str, Vec<u8
 /// Runs the history; returns false if the run ended with a violation.
 fn drive(cx: &mut Run, t: &mut dyn Tgt, caps: &Caps, m: &mut Model, gen: &mut Gen, fs: Option<&Fs>) -> bool {
     let cfg = cx.src.chan("cfg");
-    let planned = 4 + cfg.below(21);
+    // one run in eight is a long history (what only shows after many operations on one store)
+    let planned = (4 + cfg.below(21)) * if cfg.chance(1, 8) { 4 } else { 1 };
     let mut ops = cx.src.ops("ops", planned);
     let mut prev = "start";
     let mut puts_ok = 0u64;
